@@ -419,6 +419,16 @@ mut('t6-exclusion-from-object-right', ['C19'], ['T6'], [('parser/scanner.go',
  '''	tagRight := []rune(delims[3])''',
  '''	tagRight := []rune(delims[1])''')], 'what a tag may not contain is derived from the wrong delimiter')
 
+mut('x12-strict-or', ['C08'], ['X12'], [('render/render.go',
+ '''	if value == nil && ctx.config.StrictVariables {''',
+ '''	if value == nil || ctx.config.StrictVariables {''')], 'strict mode makes every object an error')
+mut('x12-strict-swallowed', ['C08'], ['X12'], [('render/render.go',
+ '''		return wrapRenderError(errors.New("undefined variable"), n)
+	}''',
+ '''		return nil
+	}'''), ('render/render.go', '''	"errors"
+''', '')], 'an undefined variable in strict mode renders nothing instead of failing')
+
 out = '/verif/selftest/mutants'
 for d in os.listdir(out):
     if d.startswith('own-'):
